@@ -19,6 +19,7 @@ spin chain strongly coupled to its environment*, arXiv:2201.05529 (2022).
 
 """
 
+from copy import copy
 from typing import Dict, List, Optional, Text, Union
 
 import numpy as np
@@ -194,7 +195,7 @@ class PtTebd(BaseAPIClass):
                 self._process_tensors.append(process_tensor)
 
         assert isinstance(parameters, PtTebdParameters)
-        self._parameters = parameters
+        self._parameters = copy(parameters)
 
         if chain_control is None:
             self._chain_control = ChainControl(
